@@ -99,6 +99,16 @@ def judge (j : Json) : R Verdict := do
       | .str s, .bytes, .ok _ => if (hexToBytes s).isNone then spec := spec ++ ["accepts-ill-formed-hex"]
       | .str s, .utxoRef, .ok _ => if !(s.contains '#') then spec := spec ++ ["accepts-ill-formed-utxo-ref"]
       | _, _, _ => pure ()
+    -- a reference names an output by an index of 32 bits: a text whose index is no such number is no reference,
+    -- whichever stream it comes from
+    match v, ty, obs.getObjVal? "ok" with
+    | .str s, .utxoRef, .ok _ =>
+      let ix := ((s.splitOn "#").getD 1 "")
+      -- (one leading `+` is part of Rust's decimal notation for unsigned numbers; the clause is about the value)
+      let digits := if ix.startsWith "+" then (ix.drop 1).toString else ix
+      let fits := match digits.toNat? with | some n => decide (n < 2 ^ 32) | none => false
+      if !fits then spec := spec ++ ["accepts-ill-formed-utxo-ref:index"]
+    | _, _, _ => pure ()
     -- a boolean is true / false, 0 / 1 or "true" / "false": nothing else is one, whichever stream it comes from
     match v, ty, obs.getObjVal? "ok" with
     | .int n, .bool, .ok _ => if n != 0 && n != 1 then spec := spec ++ ["accepts-ill-formed-bool"]
